@@ -211,6 +211,16 @@ type recObj struct{ calls *int }
 
 func (o recObj) MarshalZerologObject(e *zerolog.Event) { *o.calls++ }
 
+// recErr is an error that is also an object marshaler: any use of it by a filtered event is observable
+type recErr struct{ calls *int }
+
+func (o recErr) Error() string                          { return "recErr" }
+func (o recErr) MarshalZerologObject(e *zerolog.Event) { *o.calls++ }
+
+type recStringer struct{ calls *int }
+
+func (o recStringer) String() string { return "s" }
+
 type recArr struct{ calls *int }
 
 func (o recArr) MarshalZerologArray(a *zerolog.Array) { *o.calls++ }
@@ -219,6 +229,12 @@ func (o recArr) MarshalZerologArray(a *zerolog.Array) { *o.calls++ }
 func gateNil(out *rec) {
 	calls := 0
 	w := &lvlW{}
+	// the process-wide marshal functions are callbacks too
+	oe, oi, os_ := zerolog.ErrorMarshalFunc, zerolog.InterfaceMarshalFunc, zerolog.ErrorStackMarshaler
+	zerolog.ErrorMarshalFunc = func(err error) interface{} { calls++; return err }
+	zerolog.InterfaceMarshalFunc = func(v interface{}) ([]byte, error) { calls++; return []byte("null"), nil }
+	zerolog.ErrorStackMarshaler = func(err error) interface{} { calls++; return nil }
+	defer func() { zerolog.ErrorMarshalFunc, zerolog.InterfaceMarshalFunc, zerolog.ErrorStackMarshaler = oe, oi, os_ }()
 	lg := zerolog.New(w).Level(zerolog.Disabled).Hook(countHook{&calls})
 	ev := lg.Info()
 	rv := reflect.ValueOf(ev)
@@ -249,10 +265,18 @@ func gateNil(out *rec) {
 				c := context.Background()
 				args = append(args, reflect.ValueOf(&c).Elem())
 			case pt == tErr:
-				e := errors.New("x")
+				var e error = recErr{&calls}
 				args = append(args, reflect.ValueOf(&e).Elem())
 			case pt == tStr:
-				args = append(args, reflect.Zero(pt))
+				var st fmt.Stringer = recStringer{&calls}
+				args = append(args, reflect.ValueOf(&st).Elem())
+			case pt.Kind() == reflect.Slice && pt.Elem() == tErr:
+				args = append(args, reflect.ValueOf([]error{recErr{&calls}, recErr{&calls}}))
+			case pt.Kind() == reflect.Slice && pt.Elem() == tStr:
+				args = append(args, reflect.ValueOf([]fmt.Stringer{recStringer{&calls}}))
+			case pt.Kind() == reflect.Slice:
+				sl := reflect.MakeSlice(pt, 2, 2) // non-empty typed slices: loops over elements run if unguarded
+				args = append(args, sl)
 			case pt.Kind() == reflect.Func:
 				fn := reflect.MakeFunc(pt, func(in []reflect.Value) []reflect.Value {
 					calls++
@@ -268,7 +292,7 @@ func gateNil(out *rec) {
 			case pt.Kind() == reflect.Interface:
 				x := interface{}(map[string]interface{}{"a": 1})
 				if name == "Fields" {
-					x = map[string]interface{}{"o": recObj{&calls}}
+					x = map[string]interface{}{"o": recObj{&calls}, "e": recErr{&calls}, "es": []error{recErr{&calls}}}
 				}
 				args = append(args, reflect.ValueOf(&x).Elem())
 			default:
